@@ -72,6 +72,7 @@ def sub_fidelity(rho: np.ndarray, sigma: np.ndarray) -> float:
     if not is_density(rho) or not is_density(sigma):
         raise ValueError("Sub-fidelity is only defined for density operators.")
 
-    return np.real(
-        np.trace(rho @ sigma) + np.sqrt(2 * (np.trace(rho @ sigma) ** 2 - np.trace(rho @ sigma @ rho @ sigma)))
-    )
+    # (Tr rho sigma)^2 >= Tr(rho sigma rho sigma) for density operators; rounding can make the difference
+    # slightly negative (e.g. for pure states, where it is exactly zero), so it is clipped before the root.
+    radicand = np.real(2 * (np.trace(rho @ sigma) ** 2 - np.trace(rho @ sigma @ rho @ sigma)))
+    return np.real(np.trace(rho @ sigma) + np.sqrt(max(radicand, 0)))
